@@ -45,7 +45,9 @@ type SimReader struct {
 
 type seekableReader struct{ *SimReader }
 
-func (s seekableReader) Seek(off int64, whence int) (int64, error) { return s.SimReader.seek(off, whence) }
+func (s seekableReader) Seek(off int64, whence int) (int64, error) {
+	return s.SimReader.seek(off, whence)
+}
 
 // NewReader returns the reader to pass to NewDemuxer and the SimReader behind it.
 func NewReader(data []byte, plan ReaderPlan, log *core.Log) (io.Reader, *SimReader) {
@@ -157,7 +159,9 @@ type SimWriter struct {
 	quiet  bool
 }
 
-func NewWriter(plan WriterPlan, log *core.Log) *SimWriter { return &SimWriter{plan: plan, log: log, quiet: true} }
+func NewWriter(plan WriterPlan, log *core.Log) *SimWriter {
+	return &SimWriter{plan: plan, log: log, quiet: true}
+}
 
 func (w *SimWriter) Write(p []byte) (int, error) {
 	idx := len(w.Calls)
